@@ -2527,6 +2527,14 @@ class BlockwiseTail(Tail, Blockwise):
     the last `n` rows of an entire collection.
     """
 
+    def _simplify_down(self):
+        # physical node: the rules of the logical ``Tail`` do not apply (they
+        # would create new logical nodes after lowering, see BlockwiseHead)
+        return
+
+    def _simplify_up(self, parent, dependents):
+        return
+
     def _divisions(self):
         return self.frame.divisions
 
